@@ -36,6 +36,7 @@ type (
 		Name string
 		T    types.Type
 		NN   bool // known to be non-nil
+		Uniq bool // denotes an entity distinct from every other Uniq symbol
 	}
 	Dyn struct { // interface value with known dynamic type
 		T types.Type
@@ -684,6 +685,9 @@ func sameValue(x, y AV) (eq, known bool) {
 	case Sym:
 		if b, ok := y.(Sym); ok && a.Name == b.Name {
 			return true, true
+		}
+		if b, ok := y.(Sym); ok && a.Uniq && b.Uniq {
+			return false, true
 		}
 		if _, ok := y.(Ref); ok {
 			return false, true
@@ -1428,6 +1432,10 @@ func (in *Interp) applyValue(st *State, callee AV, args []AV, ins *ssa.Call, k k
 	if c, ok := callee.(Closure); ok {
 		fn := bodyOf(c.Fn)
 		ctx.Fn = fn
+		if r, ok := foldPure(fn, args); ok {
+			k(st, []AV{r}, false)
+			return
+		}
 		if rts == nil {
 			rts = resultTypes(fn.Signature)
 		}
@@ -1470,6 +1478,27 @@ func (in *Interp) applyValue(st *State, callee AV, args []AV, ins *ssa.Call, k k
 		return
 	}
 	in.finishUnknown(st, ctx, Event{Kind: "call", Callee: callee, Args: args, Pos: pos}, rts, k)
+}
+
+// foldPure evaluates a few pure library functions on constant arguments.
+func foldPure(fn *ssa.Function, args []AV) (AV, bool) {
+	if fn.Object() == nil || fn.Object().Pkg() == nil || fn.Object().Pkg().Path() != "strings" || len(args) != 2 {
+		return nil, false
+	}
+	a, ok1 := asString(args[0])
+	b, ok2 := asString(args[1])
+	if !ok1 || !ok2 {
+		return nil, false
+	}
+	switch fn.Name() {
+	case "HasPrefix":
+		return mkBool(strings.HasPrefix(a, b)), true
+	case "HasSuffix":
+		return mkBool(strings.HasSuffix(a, b)), true
+	case "Contains":
+		return mkBool(strings.Contains(a, b)), true
+	}
+	return nil, false
 }
 
 func symResults(rts []types.Type, tag string) []AV {
